@@ -4,9 +4,10 @@ import Wayfind.Proofs.Registry10
 /-! # C09 — delete removes exactly the named route
 Deleting a key from the tree (with pruning of empty nodes and merging of compressible ones) removes exactly that key
 from the finite map and returns what `find` finds for it.
-Status: proved on live templates, including the returned data through the reference counts of shared values, for
-histories whose inserted templates have pairwise different expansions (see C01); the duplicate-expansion family and
-clones are tied by the `dup`, `family` and `clonescope` suites. -/
+Status: proved on live templates for every history, including the returned data through the reference counts of
+shared values (one reference per *different* route of the template: an expansion whose route is present already drops
+one, `insertShared_drops`; deleting skips expansions whose route is gone already, `deleteAll_shared`); clones are
+tied by the `family` and `clonescope` suites (C16). -/
 
 theorem C09_find_after_delete (n : Node) (mark : Bool) (P Q : List Part) (hS : Node.Shp n)
     (hP : wfParts P = true) (hQ : wfParts Q = true) :
